@@ -1068,6 +1068,15 @@ func (r *pxRun) eval(st *pxState, fr *pxFrame, v ssa.Value) *T {
 			l := r.val(st, fr, ms.Len)
 			if n, ok := l.intVal(); ok && n == 0 {
 				t.HasEl = true
+			} else if ok && n > 0 && n <= 64 {
+				// a slice of known length: its (zero) elements, to be overwritten slot by slot
+				el := &T{Op: "elems", HasEl: true, Typ: x.Type()}
+				if sl, isS := x.Type().Underlying().(*types.Slice); isS {
+					for i := int64(0); i < n; i++ {
+						el.Elems = append(el.Elems, zeroTerm(sl.Elem()))
+					}
+					return el
+				}
 			} else {
 				t.A = []*T{l} // a slice of (possibly symbolic) length whose elements are stored one by one
 			}
@@ -1520,6 +1529,23 @@ func (r *pxRun) call(st *pxState, fr *pxFrame, x *ssa.Call, k func(*pxState, *px
 			st.emit(Ev{Kind: "call", Name: "builtin.delete", In: x, Within: fr.fn, Args: args, Depth: fr.depth})
 			return bind(&T{Op: "unknown", Aux: "delete", Typ: resTyp})
 		case "copy", "clear":
+			// copy(dst, src) into a fresh slice made with exactly len(src): dst now holds src
+			if bi.Name() == "copy" && len(args) == 2 && args[0].Op == "make" && len(args[0].A) == 1 && args[0].A[0].String() == "len("+args[1].String()+")" {
+				old := args[0]
+				for f := fr; f != nil; f = f.parent {
+					for k, t := range f.env {
+						if t == old {
+							f.env[k] = args[1]
+						}
+					}
+				}
+				for k, t := range st.mem {
+					if t == old {
+						st.mem[k] = args[1]
+					}
+				}
+				return bind(old.A[0])
+			}
 			st.emit(Ev{Kind: "call", Name: "builtin." + bi.Name(), In: x, Within: fr.fn, Args: args, Depth: fr.depth})
 			return bind(&T{Op: "unknown", Aux: bi.Name(), Typ: resTyp})
 		case "min", "max":
@@ -1787,6 +1813,20 @@ func termTemplate(t *T) []pseg {
 			}
 		}
 		switch t.Op {
+		case "slice":
+			// x[L:] with a constant L: the text of x without its first L bytes, if those are literal
+			if len(t.A) == 3 && t.A[2].Op == "sym" {
+				if L, ok := t.A[1].intVal(); ok && L >= 0 {
+					inner := termTemplate(t.A[0])
+					if len(inner) > 0 && inner[0].Val == nil && int64(len(inner[0].Lit)) >= L {
+						inner[0].Lit = inner[0].Lit[L:]
+						for _, sg := range inner {
+							add(sg)
+						}
+						return
+					}
+				}
+			}
 		case "binop":
 			if t.Aux == "+" {
 				walk(t.A[0])
